@@ -871,8 +871,11 @@ def run(ctx, n_override=None):
                 py = 'none'
         res.traces += 1
         res.count('reader-spec:%s:%s' % (what, 'reads' if got != 'none' else 'rejects'))
-        if what == 'bs' and got == 'none':
-            continue     # python's backslash dialect is lenient after a closing quote even when strict
+        if what in ('bs', 'rfc') and got == 'none':
+            # the specification readers reject what RFC 4180 / the backslash convention leave
+            # undefined; python's csv module stays lenient there even with strict=True (text after a
+            # closing quote in the backslash dialect, a quote inside an unquoted cell)
+            continue
         if got != py:
             res.disagreements.append(dict(name='C18/reader-spec-' + what, case=dict(text=text_of(data)[:800]), impl=py[:800], model=got[:800]))
     return res
